@@ -644,6 +644,8 @@ def hydrogen_inputs(ck):
             for q in ('', '+', '-'):
                 a = f'[{el}{h}{q}]'
                 out += [a, 'C' + a, 'C' + a + 'C', a + '=O', 'C' + a + '(C)C', 'c1cc' + a.lower().replace('h', 'H') + 'cc1' if el in 'BCNOPS' and len(el) == 1 else a + '#N']
+                if el in 'BCNP' and len(el) == 1 and h in ('', 'H'):
+                    out += ['c1cc' + a.lower().replace('h', 'H') + '(C)cc1', 'c1cc' + a.lower().replace('h', 'H') + '(~C)cc1', 'c1c' + a.lower().replace('h', 'H') + '2ccccc2cc1']
     out += ['c1cc[c]cc1', 'c1cc[cH]cc1', 'c1cc[n]cc1', 'c1cc[n+]cc1', '[nH]1cccc1', 'c1c[nH]cc1', 'n1cccc1', 'c1cc[b]cc1', 'c1cc[p]cc1', 'c1cc[cH2]cc1',
             'c1cc[c-]cc1', 'c1cc[c]cc1 |^1:3|', 'c1cc[cH]cc1 |^1:3|', 'C[CH2] |^1:1|', 'C[CH2]', 'C[CH] |^1:1|', '[CH3] |^1:0|', '[CH3]', '[CH2]', '[CH]', '[C]',
             '[CH4]', 'C[C](C)(C)C', 'C[C](C)C', '[O]', '[OH]', '[OH2]', '[OH3]', '[OH3+]', '[NH4]', '[NH4+]', '[NH3]', '[N]', 'C[N]C', 'C[NH]C', 'C[N+](C)(C)C',
